@@ -7,6 +7,10 @@ LEVEL = "Bounded symbolic model checking of the implementation: the real functio
 TRUST = "Trusted: the shims in /verif/symx (numpy/pandas/file-system/RNG/joblib contracts of DESIGN.md section 1.3, differentially validated against the real libraries on sampled paths at every run), z3, float = mathematical real, typeguard/numba made transparent."
 CHECKS = {
  "C01": ("section 2 C01", "N <= 4 (quick) / 5 (thorough) PSMs; score dtypes float/int; label dtypes bool/int/float; both directions; symbolic eval_fdr. " + TRUST),
+ "C13": ("section 2 C13", "tables of N <= 4 (quick) / 6 (thorough) rows x 3 columns (numeric, string, bool), chunk size 1..N+1, five column subsets/orders, every split of the rows into appends, buffer size 2..N, buffer kinds DataFrame and Dicts. The REAL reader/writer classes run; pandas.read_csv / to_csv / pyarrow are VFS-backed contracts (codecs trusted, batch/column-order contract probed on the installed pyarrow). TableType.Records and the sqlite writer are outside. " + TRUST),
+ "C14": ("section 2 C14", "merge_sort/get_next_row over VFS files and MergedTabularDataReader (Dicts and DataFrame rows, read, chunked, merge_readers) over real DataFrameReaders: <= 3 inputs of <= 3 rows, total <= 6 (quick) / <= 4 inputs, total <= 7 (thorough), ties allowed, reader chunk size 1..max+1, both directions; unsorted inputs either rejected or merged monotonically. Parquet row iteration is exercised concretely in the replay. " + TRUST),
+ "C15": ("section 2 C15", "picked_protein on <= 3 (quick) / 4 (thorough) peptides, <= 2 target/decoy pairs incl. two-member groups, peptide notations from a finite family, symbolic scores and labels, arbitrary tie-breaking permutation; group names as built by the real read_fasta for corresponding entry orders. Known finding: groups whose members are listed in a different order in target and decoy are not paired. Protein-level q-values are covered by C01/C03. " + TRUST),
+ "C16": ("section 2 C16", "read_fasta body and _group_proteins on every incidence structure of 3x3, 3x2+decoy, 4x3 (quick) / up to 4x4 (thorough) with digest stubbed; all (or 4) entry orders x 2-3 global set-iteration orders per structure. The executor forks on every incidence bit: a solver-driven bounded-exhaustive walk, as the property's own quantifier asks. " + TRUST),
  "C17": ("section 2 C17", "sequence length L <= 4 (quick) / 6 (thorough) over A-Z, three enzyme patterns ([KR], [KR](?!P), \\w(?=D)), missed cleavages 0..3, all length bounds, semi/clip symbolic. The regex engine is the stub symx.rx (compared with the real re in the preflight); patterns with zero-width matches are outside. " + TRUST),
  "C18": ("section 2 C18", "_shuffle_proteins: one protein L <= 5 (quick) / 7 (thorough) and two proteins 4+4, shuffle and reverse, arbitrary RNG permutation (all permutations for n <= 4); make_decoys round trip on a VFS for sequence lengths 0,1,2,3,5,69..72,141 (K/R-free residues). textwrap.wrap runs natively on token strings (preflight-compared); sequences with whitespace/hyphens outside. " + TRUST),
  "C19": ("section 2 C19", "0..2 (quick) / 0..3 (thorough) feature columns, 1..2 / 1..3 PSM rows, 1..3 proteins per row, protein column anywhere, optional DefaultDirection line, with/without trailing newline; fields are opaque non-empty atoms without separators (PIN format). Header-only files (0 rows) are outside. " + TRUST),
